@@ -23,7 +23,7 @@ def _prim(v):
     return None
 
 
-def part_objects(part):
+def part_objects(part, exclude=()):
     """All timed objects registered on the part (starting or ending), in canonical order."""
     import partitura.score as score
     seen = {}
@@ -32,6 +32,8 @@ def part_objects(part):
     while tp is not None:
         for reg in (tp.starting_objects, tp.ending_objects):
             for cls in sorted(reg, key=lambda c: c.__name__):
+                if cls.__name__ in exclude:
+                    continue
                 for o in reg[cls]:
                     if id(o) not in seen:
                         seen[id(o)] = len(order)
@@ -40,9 +42,9 @@ def part_objects(part):
     return order, seen
 
 
-def project_part(part, with_ids=True):
+def project_part(part, with_ids=True, exclude=()):
     import partitura.score as score
-    order, index = part_objects(part)
+    order, index = part_objects(part, exclude)
 
     def ref(o):
         if o is None:
